@@ -1130,6 +1130,7 @@ _PT = "phyclone/process_trace/process_trace.py"
 _APPEND_BLOCK = "            if i % thin == 0:\n                append_to_trace(i, timer, trace, tree, tree_dist)\n\n            if timer.elapsed >= max_time:\n                break\n"
 _ENTRY = "    trace.append(\n        {\n            \"iter\": i,\n            \"time\": timer.elapsed,\n            \"alpha\": tree_dist.prior.alpha,\n            \"log_p_one\": tree_dist.log_p_one(tree),\n            \"tree\": tree.to_dict(),\n        }\n    )\n"
 SELFTEST = [
+    {"name": "U3-setter-does-not-refresh-log-alpha", "kind": "break", "rule": ["U3", "T1"], "file": "phyclone/tree/distributions.py", "old": "        self._alpha = alpha\n        self.log_alpha = np.log(alpha)\n", "new": "        self._alpha = alpha\n"},
     # ---- D1
     {"name": "D1-key-renamed-in-to_dict-only", "kind": "break", "rule": "D1", "file": _T, "old": "            \"node_idx_rev\": self._node_indices_rev.copy(),\n", "new": "            \"node_index_rev\": self._node_indices_rev.copy(),\n"},
     {"name": "D1-maps-cross-wired-on-restore", "kind": "break", "rule": "D1", "file": _T,
